@@ -99,7 +99,7 @@ def unit_c08_trace(args):
         for s in saves:
             if s["mode"] == "atomic":
                 tmp_path = t["tmps"][s["tmp"] - 100]
-                tgt_path = os.path.join(d, "r%d.json" % s["target"])
+                tgt_path = os.path.join(d, crash.fname(s["target"]))
                 if os.path.dirname(tmp_path) != os.path.dirname(tgt_path):
                     problems.append("temporary file %s is not in the target's directory" % tmp_path)
         tmp_ids = [s["tmp"] for s in saves if s["mode"] == "atomic"]
@@ -194,7 +194,7 @@ def run_crash_case(ns, name, sc, k, prefix, t0, followup, eager=True):
         def reopen():
             J = ns.json_mod
             for r in sorted(sc["files"]):
-                p = os.path.join(d, "r%d.json" % r)
+                p = os.path.join(d, crash.fname(r))
                 if not os.path.exists(p):
                     continue
                 with open(p, "rb") as f:
@@ -212,7 +212,7 @@ def run_crash_case(ns, name, sc, k, prefix, t0, followup, eager=True):
             def again():
                 J = ns.json_mod
                 for r in sorted(sc["files"]):
-                    p = os.path.join(d, "r%d.json" % r)
+                    p = os.path.join(d, crash.fname(r))
                     want0 = sc["files"][r]
                     isd = isinstance(want0, dict) or want0 is None
                     cls_ = J.JSONDict if isd else J.JSONList
@@ -223,7 +223,7 @@ def run_crash_case(ns, name, sc, k, prefix, t0, followup, eager=True):
                 viol.append("after a crash at file-operation %d of %s the next save fails (exit %s)" % (k, name, code))
             else:
                 for r in sorted(sc["files"]):
-                    p = os.path.join(d, "r%d.json" % r)
+                    p = os.path.join(d, crash.fname(r))
                     want0 = sc["files"][r]
                     isd = isinstance(want0, dict) or want0 is None
                     want = followup if isd else [followup]
@@ -258,7 +258,8 @@ def unit_c08_crash(args):
         for idx, (k, prefix, eager) in enumerate(pts):
             if idx % parts != part:
                 continue
-            for fu in (followups if (idx + seed) % 2 == 0 or thorough else [None]):
+            # (a scenario whose save cannot succeed has no follow-up save either)
+            for fu in ([None] if sc.get("no_followup") else followups if (idx + seed) % 2 == 0 or thorough else [None]):
                 n += 1
                 v = run_crash_case(ns, name, sc, k, prefix, t0, fu, eager)
                 if v and not res["violations"]:
